@@ -19,6 +19,9 @@ import (
 type C14Case struct {
 	Reg   RegSpec   `json:"reg"`
 	Steps []ReqStep `json:"steps"`
+	// Redef: after the steps the registered entries are listed, one tool, prompt and resource is registered again under its name
+	// with a new definition (the same on every server), and they are listed and used once more
+	Redef bool `json:"redef,omitempty"`
 }
 
 func genC14(t *rapid.T) C14Case {
@@ -59,6 +62,7 @@ func genC14(t *rapid.T) C14Case {
 		}
 		c.Steps = append(c.Steps, st)
 	}
+	c.Redef = rapid.IntRange(0, 2).Draw(t, "redef") == 0
 	return c
 }
 
@@ -140,6 +144,7 @@ func canonJSON(v interface{}) string {
 
 func execC14(c C14Case) *Failure {
 	outcomes := make([][]string, NumModes)
+	redef := make([][]string, NumModes)
 	for m := Mode(0); m < NumModes; m++ {
 		w := NewWorld(m, c.Reg, WorldOpt{})
 		conn, err := w.Connect()
@@ -150,6 +155,43 @@ func execC14(c C14Case) *Failure {
 		for _, st := range c.Steps {
 			ex := conn.Send([]byte(st.Raw), st.ID, Bound())
 			outcomes[m] = append(outcomes[m], normalOutcome(ex, st))
+		}
+		if c.Redef {
+			ask := func(k int, method, params string) {
+				id := fmt.Sprintf(`"redef-%d"`, k)
+				ex := conn.Send([]byte(fmt.Sprintf(`{"jsonrpc":"2.0","id":%s,"method":%q,"params":%s}`, id, method, params)), id, Bound())
+				redef[m] = append(redef[m], method+" "+params+": "+normalOutcome(ex, ReqStep{}))
+			}
+			lists := []string{"tools/list", "prompts/list", "resources/list"}
+			for k, l := range lists {
+				ask(k, l, `{}`)
+			}
+			r := RegistrarOf(serverOf(w))
+			tn, pn, ru := "redefined-tool", "redefined-prompt", "file:///redefined"
+			if len(c.Reg.Tools) > 0 {
+				tn = c.Reg.Tools[0].Name
+			}
+			if len(c.Reg.Prompts) > 0 {
+				pn = c.Reg.Prompts[0].Name
+			}
+			if len(c.Reg.Resources) > 0 {
+				ru = c.Reg.Resources[0].URI
+			}
+			r.RegisterTool(mcp.NewTool(tn, mcp.WithDescription("defined anew"), mcp.WithString("fresh")), func(ctx context.Context, req *mcp.CallToolRequest) (*mcp.CallToolResult, error) {
+				return mcp.NewTextResult("the new tool"), nil
+			})
+			r.RegisterPrompt(&mcp.Prompt{Name: pn, Description: "defined anew"}, func(ctx context.Context, req *mcp.GetPromptRequest) (*mcp.GetPromptResult, error) {
+				return &mcp.GetPromptResult{Description: "the new prompt"}, nil
+			})
+			r.RegisterResource(&mcp.Resource{URI: ru, Name: "anew", Description: "defined anew"}, func(ctx context.Context, req *mcp.ReadResourceRequest) (mcp.ResourceContents, error) {
+				return mcp.TextResourceContents{URI: ru, Text: "the new resource"}, nil
+			})
+			for k, l := range lists {
+				ask(10+k, l, `{}`)
+			}
+			ask(20, "tools/call", fmt.Sprintf(`{"name":%q,"arguments":{}}`, tn))
+			ask(21, "prompts/get", fmt.Sprintf(`{"name":%q}`, pn))
+			ask(22, "resources/read", fmt.Sprintf(`{"uri":%q}`, ru))
 		}
 		conn.Close()
 		w.Close()
@@ -162,6 +204,15 @@ func execC14(c C14Case) *Failure {
 				if strings.Contains(outcomes[m][i], "no-answer") || strings.Contains(ref, "no-answer") {
 					f.Timing = true
 				}
+				return f
+			}
+		}
+	}
+	for i := range redef[0] {
+		for m := Mode(1); m < NumModes; m++ {
+			if i < len(redef[m]) && redef[m][i] != redef[0][i] {
+				f := Failf("C14/differs/after-redefinition", "with one tool, prompt and resource registered again under its name, request %d of the closing sequence is answered differently:\n  %-18s %.400s\n  %-18s %.400s", i, Mode(0).String()+":", redef[0][i], m.String()+":", redef[m][i])
+				f.Timing = strings.Contains(redef[m][i], "no-answer") || strings.Contains(redef[0][i], "no-answer")
 				return f
 			}
 		}
